@@ -554,7 +554,8 @@ class ItemFactory:
         unqualified_imports = [imprt for imprt in scope_ir.all_imports if not imprt.symbols]
         if unqualified_imports:
             # We try to find the ProcedureItem in the unqualified module imports
-            module_names = [imprt.module for imprt in unqualified_imports]
+            # (the same module may legally be imported more than once, e.g. in the host module and in the routine)
+            module_names = list(dict.fromkeys(imprt.module.lower() for imprt in unqualified_imports))
             candidates = self.get_or_create_module_definitions_from_candidates(
                 proc_name, config, module_names=module_names, only=ProcedureItem
             )
@@ -562,9 +563,21 @@ class ItemFactory:
                 if len(candidates) > 1:
                     candidate_modules = [it.scope_name for it in candidates]
                     raise RuntimeError(
-                        f'Procedure {item_name} defined in multiple imported modules: {", ".join(candidate_modules)}'
+                        f'Procedure {proc_name} defined in multiple imported modules: {", ".join(candidate_modules)}'
                     )
+                # Apply the same exclusion rules as for procedures imported via a qualified import
+                if self._is_ignored(candidates[0].name, config, ignore):
+                    return None
                 return candidates[0]
+
+            # The procedure may be defined in one of these modules but excluded via the global disable list
+            for module_name in module_names:
+                module_item = self.item_cache.get(module_name)
+                if isinstance(module_item, ModuleItem) and any(
+                        isinstance(node, Subroutine) and node.name.lower() == proc_name.lower()
+                        for node in module_item.definitions
+                ) and self._is_ignored(f'{module_name}#{proc_name}'.lower(), config, ignore):
+                    return None
 
         # This is a call to a subroutine declared via header-included interface
         item_name = f'#{proc_name}'.lower()
